@@ -7,7 +7,8 @@ TRUSTED_BASE = [
     "LINE MODEL of the text readers' input (contracts/readers.py): what is on disk is m complete lines followed by at most one partial line (a proper prefix of the next true line, no newline, pf fields of which all but the "
     "last are complete); str.split / int / float / line[-1] are interpreted on that model; the true file is well formed for N atoms (count line, comment / header lines, atom lines with 4 resp. 9 fields, LAMMPS ids a permutation, "
     "trailing id == leading id exactly when complete).  The model abstracts bytes into lines: cuts INSIDE a line are represented by (pf, last-field-complete), which is what the bounded enumeration cross-checks byte by byte",
-    "ReadAndProcessOnTheFly.read_and_process_content (open, seek(current_position), call the reader; try/except outside the E1 subset) is assumed to start the reader at current_position",
+    "ReadAndProcessOnTheFly.read_and_process_content is PROVED (E1 with `with` / try-except support, open() as a contract that either raises FileNotFoundError or yields a file object) to start the reader exactly once on its own file "
+    "positioned at current_position; that `seek` + `readline` then deliver the lines from that offset is CPython file semantics",
 ]
 ASSUMPTIONS = TRUSTED_BASE + [
     "proved per shape (N atoms concrete: xyz 1..3, lammpstrj 2..3; ANY number of lines / frames, any cut): the readline loops of xyz_reader and lammpstrj_reader on the real AST -- every returned frame lies completely on disk and has "
@@ -28,6 +29,8 @@ BOUNDS = {"atoms": "1..3", "frames": "1..3", "cuts": "all single cuts; all pairs
 
 def jobs(tier):
     js = [("py", {"name": n, "module": "props.C13", "fn": "run_reader", "reader": n, "cost": 5}) for n in ("xyz", "lammpstrj", "trr")]
+    js.append(("e1", {"name": "read_and_process_content", "registry": "contracts.readers", "key": "ReadAndProcessOnTheFly.read_and_process_content",
+               "clause": "the reader function is started exactly once on its own file, opened in its own mode and positioned at current_position; a missing file gives []", "cost": 1, "parallel": 1}))
     js.append(("e1", {"name": "xyz_reader_loop", "registry": "contracts.readers", "key": "xyz_reader#loop", "clause": "xyz: exactly the complete frames, written values, position, no exception (line model)", "cost": 6, "parallel": 6}))
     js.append(("e1", {"name": "lammpstrj_reader_loop", "registry": "contracts.readers", "key": "lammpstrj_reader#loop", "clause": "lammpstrj: exactly the complete frames with their boxes, written values at the row of each id, position, no exception (line model)", "cost": 6, "parallel": 6}))
     return js
